@@ -10,7 +10,10 @@ from llir import *
 RT_PROVIDED = {'__cxa_allocate_exception', '__cxa_free_exception', '__cxa_throw', '__cxa_begin_catch', '__cxa_end_catch',
   '__cxa_rethrow', '__cxa_get_exception_ptr', '_Znwm', '_Znam', '_ZdlPv', '_ZdaPv', '_ZdlPvm', '_ZdaPvm',
   '_ZNSt9exceptionD2Ev', '_ZNSt9exceptionD1Ev', '_ZNSt13runtime_errorD2Ev', '_ZNSt13runtime_errorD1Ev', '_ZNSt11logic_errorD2Ev',
-  '__clang_call_terminate', '_ZSt9terminatev', '__cxa_call_unexpected', '__gxx_personality_v0'}
+  '__clang_call_terminate', '_ZSt9terminatev', '__cxa_call_unexpected', '__gxx_personality_v0',
+  '_ZNSt13runtime_errorC2EPKc', '_ZNSt13runtime_errorC1EPKc', '_ZNSt13runtime_errorC1ERKNSt7__cxx1112basic_stringIcSt11char_traitsIcESaIcEEE',
+  '_ZNSt13runtime_errorC2ERKNSt7__cxx1112basic_stringIcSt11char_traitsIcESaIcEEE', '_ZNKSt13runtime_error4whatEv', '_ZNSt13runtime_erroraSEOS_',
+  '_ZNSt11logic_errorC2EPKc', '_ZNSt11logic_errorC1EPKc'}
 # libstdc++ throw helpers -> typeinfo thrown
 STD_THROW = {
   '_ZSt20__throw_length_errorPKc': '_ZTISt12length_error', '_ZSt17__throw_bad_allocv': '_ZTISt9bad_alloc',
@@ -300,6 +303,9 @@ class Emitter:
         if getattr(g, 'alias', None) is not None:
             raise Unsupported('alias ' + g.name)
         size = max(s.L.size(g.ty), 1); al = g.align or s.L.sa(g.ty)[1]
+        if g.external and g.name.startswith('vf_'):
+            mp_, ms_ = s.memtype(g.ty)              # defined by the harness: typed declaration only
+            decls.append('extern %s %s%s;' % (mp_, name, ms_)); return
         if g.external:
             size = max(size, 64)
             s.report['globals_external'].append(g.name)
